@@ -2,6 +2,7 @@ import HpackVerif.Props.Common
 import HpackVerif.Proofs.Complete4
 import HpackVerif.Proofs.IntExtra
 import HpackVerif.Proofs.Prefix
+import HpackVerif.Proofs.Trunc
 /-! # C05 — the Decoder rejects every malformed block, with the documented error classes
 
 Well-formedness "for the current context and limits" is the L0 notion: the octets are
@@ -63,6 +64,20 @@ theorem bad_representation_class (st : DecState) (h : Props.DecReach st) (good :
   have hp := interpPrefix_append_error (abs st) (good.map (·.1)) bad.1 [] 0 fs size ctx' hg e hb
   have := defect_decides st h (good ++ [bad]) hok rest e ctx' (by simpa using hp)
   exact this.1
+
+/-- **truncation**: after any acceptable list of representations, a further representation that would have
+    been fine, cut short at any octet boundary strictly inside it — inside an integer, inside a string's
+    length, inside its payload (Huffman-coded or not), between name and value — makes the block fail with the
+    general decoding error -/
+theorem truncated_block (st : DecState) (h : Props.DecReach st)
+    (good : List (Rep × Choice)) (hokg : ∀ rc ∈ good, RepOK Gen.intCap rc.1 rc.2)
+    (r : Rep) (ch : Choice) (hokr : RepOK Gen.intCap r ch)
+    (fs : List Field) (size : Nat) (ctx' : Ctx)
+    (hg : interpPrefix (abs st) (good.map (·.1)) [] 0 = .ok (fs, size, ctx'))
+    (hr : ∃ res, interpField ctx' (!fs.isEmpty) r = .ok res)
+    (k : Nat) (hk1 : 1 ≤ k) (hk : k < (reprOctets r ch).length) :
+    (Impl.decode Gen.intCap true st (blockOctets good ++ (reprOctets r ch).take k)).1 = .err .decoding :=
+  decode_truncated (own := true) Gen.intCap st (Props.decReach_inv h) good hokg r ch hokr fs size ctx' hg hr k hk1 hk
 
 /-- the specification of the classes, clause by clause -/
 theorem spec_bad_index (ctx : Ctx) (seen : Bool) (i : Nat) (h : lookup ctx i = none) :
